@@ -109,7 +109,7 @@ def property_verdict(case, line):
 corpus_file = os.path.join(verif.VERIF, "corpus", "C06", "cases.txt")
 cases = [l.strip() for l in open(corpus_file) if l.strip() and not l.startswith("#")]
 ncorpus = len(cases)
-hist = {"corpus": ncorpus, "grid": 0, "large": 0}
+hist = {"corpus": ncorpus, "grid": 0, "few_per_thread": 0, "large": 0}
 pat_hist = {}
 if ck.replay:
     cases = [json.load(open(ck.replay))["case"]]
@@ -128,6 +128,18 @@ else:
                         cases.append(mk_case(rng.choice(ELEMS), rng.chance(2, 3), split, "G" if rng.chance(1, 4) else "L",
                                              p, rng.choice(OSS), keys))
                         hist["grid"] += 1
+    # many threads, few elements per thread (17 <= n < 2p, p = 9..24), 2-3 distinct keys, stable and unstable, both
+    # splittings, half of them with a comparator that disagrees with the elements' natural operator<
+    for rep in range(reps):
+        for p in range(9, 25):
+            for n in range(17, 2 * p):
+                for split in ("E", "X"):
+                    for K in (2, 3):
+                        keys, pat = gen_keys(rng, n, K)
+                        pat_hist[pat] = pat_hist.get(pat, 0) + 1
+                        cases.append(mk_case(rng.choice(["pair", "pair", "trk"]), rng.chance(3, 4), split,
+                                             "G" if rng.chance(1, 2) else "L", p, rng.choice(OSS), keys))
+                        hist["few_per_thread"] = hist.get("few_per_thread", 0) + 1
     # larger random inputs: sizes around multiples of the thread count, duplicate-heavy and near-unique keys
     nlarge = 400 if ck.thorough() else 60
     for _ in range(nlarge):
@@ -151,7 +163,8 @@ drv, dlog = ck.ocaml_driver("C06")
 distinct = set()
 samples = []
 stats = {"stable": 0, "unstable": 0, "exact": 0, "sampling": 0, "int": 0, "pair": 0, "trk": 0,
-         "n<=1": 0, "n<threads": 0, "n_not_multiple_of_threads": 0, "tie_across_window_boundary": 0}
+         "n<=1": 0, "n<threads": 0, "n_not_multiple_of_threads": 0, "tie_across_window_boundary": 0,
+         "sampling_comparator_not_natural_order": 0}
 tsan = None
 
 
@@ -199,7 +212,10 @@ else:
     model = out2.splitlines()
     if rc2 != 0 or len(model) != len(cases):
         ck.violation("extracted model failed on the case file", {"correspondence": "ocaml/C06_driver.ml", "log": out2[-1500:]}, no_input=True)
-    reported_leak = False
+    # pass 1: statistics, model self-check, and the property verdict on the implementation's output alone; property
+    # violations (wrong / unstable / unsorted result, leak, lifetime error) are reported first, each with its input
+    footprint_diffs = []
+    prop_reports = 0
     for idx, c in enumerate(cases):
         if idx >= len(impl) or idx >= len(model):
             break
@@ -211,6 +227,7 @@ else:
         if n <= 1: stats["n<=1"] += 1
         elif n < p: stats["n<threads"] += 1
         elif n % p: stats["n_not_multiple_of_threads"] += 1
+        if pc["greater"] and pc["split"] == "X" and min(n, p) >= 2: stats["sampling_comparator_not_natural_order"] += 1
         if n >= 2 and min(n, p) >= 2: distinct.add(c)
         fb = fields(b)
         if fb.get("win") not in (None, "-", ""):
@@ -220,21 +237,24 @@ else:
                 if ks[pos - 1] == ks[pos]:
                     stats["tie_across_window_boundary"] += 1; break
         if "MODEL-" in b:
-            ck.violation("model self-check failed: " + b[-40:], {"case": c, "model": b, "theorem_or_correspondence": "C06_stable_pms_is_stable_sort vs extracted model"}, no_input=True)
+            ck.violation("model self-check failed: " + b[-40:], {"case": c, "model": b, "theorem_or_correspondence": "C06_extracted_model_correct vs extracted model"}, no_input=True)
             break
         verdict = property_verdict(c, a)
         if verdict is not None:
             found = True
-            if "leak" in verdict or "alive" in verdict: reported_leak = True
-            ck.violation("%s: %s" % ("stable_parallel_mergesort" if pc["stable"] else "parallel_mergesort", verdict),
-                         {"case": c, "impl": a[:600], "model": b[:600], "replay_cmd": "bin/check C06 --replay <this file>"})
-            if ck.violations >= 3: break
+            if prop_reports < 3:
+                prop_reports += 1
+                ck.violation("%s: %s" % ("stable_parallel_mergesort" if pc["stable"] else "parallel_mergesort", verdict),
+                             {"case": c, "impl": a[:600], "model": b[:600], "replay_cmd": "bin/check C06 --replay <this file>"})
         elif a != b:
-            ck.violation("implementation differs from the model (merge windows / footprint): impl=%s model=%s" % (a[-100:], b[-100:]),
-                         {"case": c, "impl": a[:600], "model": b[:600], "correspondence": "harness/C06/pms_harness.cpp vs coq/C06/PMS.v"},
-                         no_input=True)
-            if ck.violations >= 3: break
-    if rc1 != 0 and ck.violations == 0:
+            footprint_diffs.append((c, a, b))
+    # pass 2: differences the property leaves open (merge windows / write footprint) - correspondence only
+    for c, a, b in footprint_diffs[:2]:
+        ck.violation("implementation differs from the model (merge windows / footprint): impl=%s model=%s" % (a[-100:], b[-100:]),
+                     {"case": c, "impl": a[:600], "model": b[:600], "correspondence": "harness/C06/pms_harness.cpp vs coq/C06/PMS.v",
+                      "footprint_differences_total": len(footprint_diffs)},
+                     no_input=True)
+    if rc1 != 0 and (ck.violations == 0 or len(impl) < len(cases)):
         if len(impl) < len(cases):
             # crash (sanitizer / signal) in the middle: the first case without an output line
             c = cases[len(impl)]
@@ -276,7 +296,8 @@ if pr is not None and not pr["ok"]:
 ck.finish({
     "evaluations": len(cases),
     "distinct_nontrivial": len(distinct),
-    "rule": "one case per grid point (n 0..70) x (threads 1..20) x (exact, sampling) x (key universe 1..4) [x5 in the thorough tier] plus "
+    "rule": "one case per grid point (n 0..70) x (threads 1..20) x (exact, sampling) x (key universe 1..4) [x5 in the thorough tier], one per "
+            "(threads 9..24) x (17 <= n < 2*threads) x (exact, sampling) x (2, 3 keys), plus "
             "larger random inputs; pattern, element type (int / (key,index) with writer tags / heap-owning ledger type), stable or not, "
             "less or greater, oversampling 1/2/3/10 drawn per case. Non-trivial = n >= 2 and at least two threads after clamping "
             "(runs are split, partitioned and merged); distinct = distinct case text. Each case runs on the real sort with real "
